@@ -600,3 +600,13 @@ func Catch(f func() error) (err error) {
 	}()
 	return f()
 }
+
+// WriteCase writes a case as a replay file.
+func WriteCase(path string, c *Case) error {
+	c.fill()
+	b, err := json.MarshalIndent(c, "", " ")
+	if err != nil {
+		return err
+	}
+	return os.WriteFile(path, b, 0o644)
+}
